@@ -289,6 +289,24 @@ def case_hist(ctx, inp):
             raise
         if not _is_graphnode(new):
             continue
+        # substitution lemma (substN_eval): the rewired node evaluates like the original on the substituted values
+        if kind in ("subst", "substrename"):
+            for envspec in inp["envs"]:
+                values = _values(envspec)
+                seen_through = dict(values)
+                for k, v in subs.items():
+                    if k in values and v in values:
+                        seen_through[k] = values[v]
+                try:
+                    r_new, r_old = _call(new, values), _call(src, seen_through)
+                except (TypeError, KeyError):
+                    ctx.note("eval-typeerror")
+                    continue
+                if not (U.canon_repr(r_new) == U.canon_repr(r_old) or r_new == r_old):
+                    ctx.fail("node.substitute(subs) does not evaluate like the node on the substituted dependency values",
+                             sig=None, observed={"node": repr(src)[:150], "subs": repr(subs)[:100], "new": repr(new)[:150],
+                                                 "values": [U.canon_repr(r_new)[:120], U.canon_repr(r_old)[:120]]})
+                    break
         pop.append(new)
         how_made.append(lab)
         ctx.branch("hist-" + lab + ":" + type(src).__name__)
